@@ -399,6 +399,13 @@ Definition slot_chunk_ok (c : str) : bool :=
 
 Record slot_part := { sp_slot : option str; sp_sub : option str; sp_op : option str; sp_repo : option str }.
 
+(* slot.endswith("=") : (slot operator, slot text without it) *)
+Definition slot_op_split (slot : str) : option str * str :=
+  match lastc slot with
+  | Some l => if l =? c_eq then (Some [c_eq], removelast slot) else (None, slot)
+  | None => (None, slot)
+  end.
+
 (* the non-empty slot text between ":" and "::"/end *)
 Definition slot_body (g : gates) (slot : str) (repo : option str) : option slot_part :=
   match slot with
@@ -409,10 +416,7 @@ Definition slot_body (g : gates) (slot : str) (repo : option str) : option slot_
           if negb (is_nil t) then None     (* Slot operators '*' and '=' do not take slot targets *)
           else Some {| sp_slot := None; sp_sub := None; sp_op := Some slot; sp_repo := repo |}
         else
-          let so := match lastc slot with
-                    | Some l => if l =? c_eq then (Some [c_eq], removelast slot) else (None, slot)
-                    | None => (None, slot)
-                    end in
+          let so := slot_op_split slot in
           match split_first c_slash (snd so) with
           | Some (a, b) =>
               if slot_chunk_ok a && slot_chunk_ok b
